@@ -197,6 +197,7 @@ def run_unit(name, repo=None, rlimit=None, outdir=None, extra_args=(), solver=No
                 break
         # tags: nearest /*@..*/ before the highlight on the primary line
         tags, label, unless = None, None, None
+        hint_fail = False
         for s in [ps] + [x for x in spans if x is not ps]:
             txt = s["text"][0]["text"] if s.get("text") else ""
             hs = s["text"][0]["highlight_start"] - 1 if s.get("text") else 0
@@ -216,10 +217,11 @@ def run_unit(name, repo=None, rlimit=None, outdir=None, extra_args=(), solver=No
             if len(ps["text"]) > 1:
                 snippet += " ..."
         explicit = kind in ("post", "inv_entry", "inv_preserve", "decreases") or (kind == "pre" and tags)
-        if tags is None and kind == "assert" and fn is not None and _is_overlay_text(unit, ps, snippet):
+        if tags is None and kind in ("assert", "pre") and fn is not None and _is_overlay_text(unit, ps, snippet):
             # a proof hint spliced in by the overlay failed: every clause of the function may lean on it
             tags = list(fn["props"])
             label = "hint:" + _norm(snippet, 50)
+            hint_fail = True
         if tags is None:
             if fn is None:
                 tags = []
@@ -239,6 +241,8 @@ def run_unit(name, repo=None, rlimit=None, outdir=None, extra_args=(), solver=No
             "id": "%s::%s::%s::%s" % (name, fn["qual"] if fn else "?", kind, label or _norm(snippet, 60)),
             "tags": tags,
             "unless": unless,
+            "hint_fail": hint_fail,
+            "snippet": snippet,
             "message": msg,
             "at": _origin(unit, ps["line_start"]),
             "exit": exit_loc,
@@ -268,6 +272,33 @@ def run_unit(name, repo=None, rlimit=None, outdir=None, extra_args=(), solver=No
             suffix = "::" + f["qual"]
             if not any(n.endswith(suffix) for n in names):
                 hard.append("vacuity: function %s has no verification query" % f["qual"])
+    # ---- hint-free re-verification: a failing overlay hint is dropped and every clause of the function is re-checked
+    #      on its own without it; only the clauses that then fail are violations (the hint itself is not an obligation).
+    hint_obs = [ob for ob in res.failures if ob.get("hint_fail")]
+    if out is not None and hint_obs and os.environ.get("VERIF_NO_SPLIT") != "1":
+        drop = set()
+        for ob in hint_obs:
+            f = next((x for x in unit.fns if x["qual"] == ob["fn"]), None)
+            if f:
+                for ins in f.get("inserts", []):
+                    if ob["snippet"].strip() and ob["snippet"].strip() in ins["text"]:
+                        drop.add((f["qual"], ins["tl"]))
+        if drop:
+            try:
+                unit2 = extract.extract_unit(name, repo, drop=drop)
+                unit2.name = name + "_nohint"
+                path2 = extract.write_unit(unit2, outdir)
+                fns2 = set(q for q, _ in drop)
+                sf, srl = _split_run(unit2, path2, outdir, fns2, rlimit, single_ok=True)
+                if sf is not None:
+                    for x in sf:
+                        x["unit"] = name
+                        x["id"] = x["id"].replace(name + "_nohint::", name + "::", 1)
+                        x["message"] += " (re-verified without the overlay hint `%s` that no longer holds)" % _norm(hint_obs[0]["snippet"], 60)
+                    res.failures = [ob for ob in res.failures if not ob.get("hint_fail")] + sf
+                    hard.extend(srl)
+            except extract.Inconclusive:
+                pass
     # ---- split attribution: one run per tagged ensures clause of every function that failed or hit the rlimit
     if out is not None and os.environ.get("VERIF_NO_SPLIT") != "1":
         need = set(ob["fn"] for ob in res.failures if ob["fn"] and ob["kind"] == "post")
@@ -303,14 +334,14 @@ def _clause_spans(unit, f):
     return spans
 
 
-def _split_run(unit, path, outdir, fn_quals, rlimit):
+def _split_run(unit, path, outdir, fn_quals, rlimit, single_ok=False):
     import concurrent.futures as cf
     jobs = []
     for f in unit.fns:
         if f["qual"] not in fn_quals:
             continue
         spans = _clause_spans(unit, f)
-        if len(spans) < 2:
+        if len(spans) < 2 and not (single_ok and spans):
             continue
         for k, (label, tags, a, b, unless) in enumerate(spans):
             lines = list(unit.out_lines)
@@ -328,7 +359,7 @@ def _split_run(unit, path, outdir, fn_quals, rlimit):
 
     def run(job):
         f, label, tags, a, vpath, unless = job
-        cmd = ["verus", os.path.basename(vpath), "--error-format=json", "--multiple-errors", "1", "--rlimit", str((rlimit or 30) * 2), "--num-threads", "2"]
+        cmd = ["verus", os.path.basename(vpath), "--error-format=json", "--multiple-errors", "6", "--rlimit", str((rlimit or 30) * 2), "--num-threads", "2"]
         p = subprocess.run(cmd, cwd=outdir, stdout=subprocess.PIPE, stderr=subprocess.PIPE, text=True)
         failed, rl, rendered, exit_loc = False, False, "", None
         for ln in p.stderr.splitlines():
